@@ -94,6 +94,7 @@ class Acc:
             "distinct_histories": len(self.hist),
             "distinct_states": len(self.states),
             "runs_per_hour": int(self.n / wall * 3600) if wall > 0 else 0,
+            "seeds_per_hour": int(self.n / wall * 3600) if wall > 0 else 0,  # one derived seed = one run (run seed = VERIF_SEED * 2^32 + index)
             "fs_events_simulated": self.fs.get("events", 0),
             "fs": dict(self.fs),
             "faults_fired": {k: v for k, v in sorted(self.faults.items()) if v},
